@@ -48,6 +48,7 @@ type warcIndex struct {
 	Problems []warcProblem
 	// TrailingPartial: files whose tail is an incomplete member (allowed once, at the very end of a .open file)
 	TrailingPartial map[string]int64
+	EmptyMembers    int
 }
 
 func newWarcIndex() *warcIndex {
@@ -92,6 +93,13 @@ func (ix *warcIndex) scanFile(path, base string) {
 			break
 		}
 		consumed := int64(len(data[off:])) - int64(br.Len())
+		if len(raw) == 0 {
+			// an empty gzip member (the writer closes its compressor once more when the file is finalised): holds no record at all
+			ix.EmptyMembers++
+			off += consumed
+			ix.offsets[base] = off
+			continue
+		}
 		rec, problem := parseWARCRecord(raw)
 		rec.File, rec.Offset = base, off
 		if problem != "" {
